@@ -16,6 +16,7 @@ import ASV.Proofs.ProtoRingSep
 import ASV.Proofs.ProtoRingFinal
 import ASV.Proofs.ProtoRingSup
 import ASV.Proofs.ProtoExtendRing
+import ASV.Proofs.ProtoRingWide
 namespace ASV.C03
 open ASV ASV.Rules ASV.Proto ASV.Chains ASV.ChainSweep
 
@@ -247,6 +248,129 @@ theorem protoclusters_of_rule_ring_partial (r : Rec) (hcirc : r.circular = true)
       simp only [extendArea_ring_inner r hcirc A B rule.nbhd harcN p (by omega) (by omega) (by omega) true, e3, e4,
         bind, Except.bind]
       exact mkPC_simple _ _ _ (by simp only; omega) (by simp only; omega))
+    hpaired.with_mem_right
+  refine ⟨groups, pcs, ?_, hpart, hp2⟩
+  simp only [clustersOfRule, hfind, bind, Except.bind]
+  exact hpcs
+
+/-- **Cores are the maximal chains (circular record, anchors in a wide arc)** — `_partial`, but with a much
+    weaker hypothesis than `cores_are_chains_ring_partial`: `WideArc L c A B` only asks that the arc `[A, B)`
+    lies in the record, that arc and cutoff together fit into it (`(B − A) + c ≤ L`) and that the arc is at
+    most half of it.  The arc may touch the origin on either side, the cutoff window of a core may wrap over
+    the origin or be capped to the whole record; only a chain that itself crosses the origin (or an
+    origin-spanning anchor) is still excluded.  Chain relation: the ring relation `nearB r.len c`. -/
+theorem cores_are_chains_ring_wide_partial (r : Rec) (hcirc : r.circular = true) (c A B : Int)
+    (harc : WideArc r.len c A B) (anchors : List Loc) (hne : anchors ≠ [])
+    (hok : ∀ l ∈ anchors, GeneIn r.len A B l) :
+    ∃ (groups : List (List Loc)) (cores : List Loc),
+      findCores r c anchors = .ok cores ∧
+      IsChainPartition (fun a b => nearB r.len c a b = true) anchors groups ∧
+      Paired (fun core g => ∃ p, core = Loc.simple p ∧
+        (∀ m ∈ g, p.lo ≤ m.start ∧ m.end ≤ p.hi) ∧ (∃ m ∈ g, m.start = p.lo) ∧ (∃ m ∈ g, m.end = p.hi))
+        cores groups := by
+  have hc := harc.cpos
+  obtain ⟨sorted, cores, hperm, hsorted, hfind, hmap, hsimple⟩ :=
+    findCores_arcW r c A B hc harc.lo harc.hi (arcOps_ring_wide r hcirc c A B harc) anchors hne hok
+  obtain ⟨hpart, hinv⟩ := sweep_is_chain_partition_of (fun a b => nearB r.len c a b = true) c hc anchors sorted
+    hperm hsorted (fun l hl => (hok l hl).ok.start_lt_end)
+    (fun a ha b hb => nearB_ring_wide_iff r.len c A B harc a b (hok a ha) (hok b hb))
+  refine ⟨(sweep Loc.start Loc.end c sorted).map Grp.members, cores, hfind, hpart, ?_⟩
+  refine Paired.map_right Grp.members ?_
+  refine (paired_of_map_eq cores (sweep Loc.start Loc.end c sorted) hmap hsimple hinv).imp ?_
+  rintro core g ⟨hiv, ⟨p, rfl⟩, hg⟩
+  simp only [ivOf, Loc.start, Loc.end, Prod.mk.injEq] at hiv
+  refine ⟨p, rfl, ?_, ?_, ?_⟩
+  · intro m hm
+    have h1 := hg.loMin m hm
+    have h2 := hg.hiMax m hm
+    omega
+  · obtain ⟨m, hm, e⟩ := hg.loAtt
+    exact ⟨m, hm, by omega⟩
+  · obtain ⟨m, hm, e⟩ := hg.hiAtt
+    exact ⟨m, hm, by omega⟩
+
+/-- … and consecutive cores are at least the cutoff apart as spans: every later core starts at least `c`
+    positions after every earlier core ends (linear record, and circular record with the anchors in a wide
+    arc) — the separation `merge_over_origin` relies on to leave them alone -/
+theorem cores_apart_linear (r : Rec) (hlin : r.circular = false) (c : Int) (hc : 0 ≤ c)
+    (anchors : List Loc) (hne : anchors ≠ []) (hok : ∀ l ∈ anchors, GeneOK r.len l) :
+    ∃ cores, findCores r c anchors = .ok cores ∧ cores.Pairwise (fun a b => a.end + c ≤ b.start) := by
+  obtain ⟨sorted, cores, _, hsorted, hfind, hmap, _⟩ := findCores_line r hlin c hc anchors hne hok
+  refine ⟨cores, hfind, ?_⟩
+  have := sweep_hulls_apart c sorted hsorted
+  rw [← hmap, List.pairwise_map] at this
+  exact this
+
+theorem cores_apart_ring_wide_partial (r : Rec) (hcirc : r.circular = true) (c A B : Int)
+    (harc : WideArc r.len c A B) (anchors : List Loc) (hne : anchors ≠ [])
+    (hok : ∀ l ∈ anchors, GeneIn r.len A B l) :
+    ∃ cores, findCores r c anchors = .ok cores ∧ cores.Pairwise (fun a b => a.end + c ≤ b.start) := by
+  obtain ⟨sorted, cores, _, hsorted, hfind, hmap, _⟩ :=
+    findCores_arcW r c A B harc.cpos harc.lo harc.hi (arcOps_ring_wide r hcirc c A B harc) anchors hne hok
+  refine ⟨cores, hfind, ?_⟩
+  have := sweep_hulls_apart c sorted hsorted
+  rw [← hmap, List.pairwise_map] at this
+  exact this
+
+/-- **The protoclusters of a rule (circular record, anchors in a wide arc)** — `_partial` only through
+    `WideArc` for the *cutoff*; the neighbourhood is any non-negative distance: the location is
+    `_extend_area_location`'s closed form — the core widened by `min(nbhd, (L − len)/2 + 1)` on both sides,
+    wrapped over the origin or the whole record when the two ends meet — a well-formed area containing
+    exactly the bases within that distance of the core, the shorter way round. -/
+theorem protoclusters_of_rule_ring_wide_partial (r : Rec) (hcirc : r.circular = true) (rule : RuleM) (A B : Int)
+    (harc : WideArc r.len rule.cutoff A B) (hn : 0 ≤ rule.nbhd)
+    (anchors : List Gene) (hne : (r.genes.filter fun g => anchors.contains g.id) ≠ [])
+    (hok : ∀ g ∈ r.genes, anchors.contains g.id = true → GeneIn r.len A B g.loc) :
+    ∃ (groups : List (List Loc)) (pcs : List PC),
+      clustersOfRule r rule anchors = .ok pcs ∧
+      IsChainPartition (fun a b => nearB r.len rule.cutoff a b = true)
+        ((r.genes.filter fun g => anchors.contains g.id).map (·.loc)) groups ∧
+      Paired (fun pc g => pc.rule = rule.name ∧ ∃ p, pc.core = Loc.simple p ∧
+        (∀ m ∈ g, p.lo ≤ m.start ∧ m.end ≤ p.hi) ∧ (∃ m ∈ g, m.start = p.lo) ∧ (∃ m ∈ g, m.end = p.hi) ∧
+        RingArea r.len pc.loc ∧
+        ∀ i, pc.loc.mem i = true ↔ (0 ≤ i ∧ i < r.len ∧ ∃ j, p.mem j = true ∧
+          ringAbs r.len i j ≤ min rule.nbhd ((r.len - (p.hi - p.lo)) / 2 + 1)))
+        pcs groups := by
+  have hok' : ∀ l ∈ (r.genes.filter fun g => anchors.contains g.id).map (·.loc), GeneIn r.len A B l := by
+    intro l hl
+    obtain ⟨g, hg, rfl⟩ := List.mem_map.1 hl
+    simp only [List.mem_filter] at hg
+    exact hok g hg.1 hg.2
+  obtain ⟨groups, cores, hfind, hpart, hpaired⟩ :=
+    cores_are_chains_ring_wide_partial r hcirc rule.cutoff A B harc _ (by simpa using hne) hok'
+  have hgroup : ∀ g ∈ groups, ∀ m ∈ g, GeneIn r.len A B m := by
+    intro g hg m hm
+    apply hok'
+    rw [← hpart.perm.mem_iff]
+    simp only [List.mem_flatten]
+    exact ⟨g, hg, hm⟩
+  have hlo := harc.lo; have hhi := harc.hi
+  obtain ⟨pcs, hpcs, hp2⟩ := mapM_paired
+    (fun core => do
+      let surrounds ← extendArea r core rule.nbhd true
+      mkPC rule.name core surrounds)
+    (S := fun (pc : PC) (g : List Loc) => pc.rule = rule.name ∧ ∃ p, pc.core = Loc.simple p ∧
+        (∀ m ∈ g, p.lo ≤ m.start ∧ m.end ≤ p.hi) ∧ (∃ m ∈ g, m.start = p.lo) ∧ (∃ m ∈ g, m.end = p.hi) ∧
+        RingArea r.len pc.loc ∧
+        ∀ i, pc.loc.mem i = true ↔ (0 ≤ i ∧ i < r.len ∧ ∃ j, p.mem j = true ∧
+          ringAbs r.len i j ≤ min rule.nbhd ((r.len - (p.hi - p.lo)) / 2 + 1)))
+    (by
+      rintro core g ⟨⟨p, rfl, hcov, ⟨m1, hm1, e1⟩, ⟨m2, hm2, e2⟩⟩, hg⟩
+      have a1 := (hgroup g hg m1 hm1).lo
+      have a2 := (hgroup g hg m1 hm1).ok.start_lt_end
+      have a3 := (hgroup g hg m2 hm2).hi
+      have a4 := (hcov m1 hm1).2
+      have hL : 0 < r.len := harc.Lpos (by omega)
+      have hd0 : 0 ≤ min rule.nbhd ((r.len - (p.hi - p.lo)) / 2 + 1) := by omega
+      have hdL : min rule.nbhd ((r.len - (p.hi - p.lo)) / 2 + 1) ≤ r.len := by omega
+      have harea := (extSimpleRing_area p.lo p.hi _ r.len hL (by omega) (by omega) (by omega) hd0 hdL).1
+      refine ⟨⟨rule.name, .simple p, extSimpleRing ⟨p.lo, p.hi, .fwd⟩ (min rule.nbhd ((r.len - (p.hi - p.lo)) / 2 + 1)) r.len⟩,
+        ?_, rfl, p, rfl, hcov, ⟨m1, hm1, e1⟩, ⟨m2, hm2, e2⟩, harea, ?_⟩
+      · simp only [extendArea_ring_simple r hcirc hL p rule.nbhd (by omega) (by omega) (by omega) hn true, bind, Except.bind]
+        exact mkPC_simple_area _ _ r.len _ harea
+      · intro i
+        rw [extSimpleRing_mem ⟨p.lo, p.hi, .fwd⟩ _ r.len (by simp only; omega) (by simp only; omega) (by simp only; omega) hd0 i]
+        simp [Part.mem_iff])
     hpaired.with_mem_right
   refine ⟨groups, pcs, ?_, hpart, hp2⟩
   simp only [clustersOfRule, hfind, bind, Except.bind]
@@ -583,6 +707,17 @@ def ringRec : Rec := ⟨1000, true,
   [⟨0, .simple ⟨300, 320, .fwd⟩, [("a", 0)], true⟩, ⟨1, .simple ⟨340, 360, .rev⟩, [("a", 0)], true⟩,
    ⟨2, .simple ⟨400, 420, .fwd⟩, [("a", 0)], true⟩]⟩
 example : InnerArc ringRec.len 25 300 420 := ⟨by decide, by decide, by decide, by decide⟩
+/-- a wide arc touching the origin: ring of length 100, genes at [0,10) and [25,35), cutoff 20 (the window of the
+    first core wraps over the origin): `WideArc 100 20 0 40` holds (`InnerArc` does not: 20 ≰ 0) -/
+def wideRec : Rec := ⟨100, true,
+  [⟨0, .simple ⟨0, 10, .fwd⟩, [("a", 0)], true⟩, ⟨1, .simple ⟨25, 35, .rev⟩, [("a", 0)], true⟩]⟩
+example : WideArc wideRec.len 20 0 40 := ⟨by decide, by decide, by decide, by decide, by decide⟩
+example : (match findCores wideRec 20 (wideRec.genes.map (·.loc)) with
+    | .ok cores => cores.map (fun c => (c.start, c.end)) == [(0, 35)]
+    | .error _ => false) = true := by decide +kernel
+example : (match findCores wideRec 15 (wideRec.genes.map (·.loc)) with
+    | .ok cores => cores.map (fun c => (c.start, c.end)) == [(0, 10), (25, 35)]
+    | .error _ => false) = true := by decide +kernel
 example : ∀ g ∈ ringRec.genes, GeneIn ringRec.len 300 420 g.loc := by
   intro g hg
   simp only [ringRec, List.mem_cons, List.mem_nil_iff, or_false] at hg
